@@ -61,8 +61,10 @@ REGIONS = {
     'schedpre_block': dict(sched=1.0, schedpre=1.0, block=0.8),
     'slotted': dict(slotted=1.0, noblock=True),
     'dyn': dict(dyn=1.0, multiclass=True),
+    'renege_dyn': dict(renege=1.0, dyn=1.0, multiclass=True),     # reneging x class change while waiting (C17)
     'ps': dict(ps=1.0, noblock=True),
     'deadlock': dict(block=1.0, deadlock=True),
+    'jsq_preempt': dict(routers=1.0, jsq=True, prio=1.0, preempt=1.0, noblock=True, multiclass=True),
     'all': dict(prio=0.4, preempt=0.3, sched=0.3, schedpre=0.3, slotted=0.15, renege=0.3, dyn=0.2, routers=0.3,
                 block=0.4),
 }
@@ -128,7 +130,7 @@ def gen(region, seed, size='quick'):
         rows = [_row(rng, n, exit_ok=not (f.get('deadlock') and rng.random() < 0.6)) for _ in range(n)]
         return {'kind': 'tm', 'rows': rows}
     def node_router():
-        kind = rng.choice(['direct', 'leave', 'prob', 'jsq', 'lb', 'cycle'])
+        kind = rng.choice(['direct', 'leave', 'prob', 'jsq', 'lb', 'cycle'] if not f.get('jsq') else ['jsq', 'jsq', 'jsq', 'lb', 'prob'])
         dests = sorted(rng.sample(range(1, n + 1), rng.randint(1, n)))
         if kind == 'direct':
             return {'kind': 'direct', 'to': rng.choice(list(range(1, n + 1)) + [-1])}
@@ -148,7 +150,7 @@ def gen(region, seed, size='quick'):
     routing = []
     for c in range(k):
         if P('routers'):
-            r = rng.random()
+            r = rng.random() if not f.get('jsq') else 0.0
             if r < 0.5:
                 routing.append({'kind': 'nr', 'routers': [node_router() for _ in range(n)]})
             elif r < 0.75:
@@ -170,6 +172,7 @@ def gen(region, seed, size='quick'):
         pr = [rng.randrange(m) for _ in range(k)]
         vals = sorted(set(pr))
         cfg['prio'] = [vals.index(p) for p in pr]
+        cfg['prio_rev'] = rng.random() < 0.5
         if P('preempt'):
             opts = ['resume', 'restart', 'resample'] + (['reroute'] if f.get('reroute') else [])
             cfg['preempt'] = [rng.choice(opts + [False]) for _ in range(n)]
@@ -179,6 +182,7 @@ def gen(region, seed, size='quick'):
                          for j in range(n)] for c in range(k)]
     if k > 1 and rng.random() < 0.35 and not f.get('dyn'):
         cfg['ccm'] = [_ccm(rng, k) for _ in range(n)]
+        cfg['ccm_rev'] = rng.random() < 0.5
     if rng.random() < 0.25:
         cfg['baulk'] = [[([rng.choice([0, 0, 1, 2, 4]) for _ in range(rng.randint(1, 4))] if rng.random() < 0.6 else None)
                          for _ in range(n)] for _ in range(k)]
